@@ -194,6 +194,19 @@ func workerMain(args []string) {
 					c.Note = fmt.Sprintf("doc truncated for display from %d bytes", len(c.Doc))
 					c.Doc = c.Doc[:200]
 				}
+				if len(c.Switches) > 48 {
+					c.Note += fmt.Sprintf(" switch list truncated for display from %d entries", len(c.Switches))
+					c.Switches = c.Switches[:48]
+				}
+				for ti := range c.Tasks {
+					if r := c.Tasks[ti].Reader; r != nil && len(r.Ops) > 48 {
+						r.Ops = r.Ops[:48]
+					}
+				}
+				if c.Reader != nil && len(c.Reader.Ops) > 64 {
+					c.Note += fmt.Sprintf(" read schedule truncated for display from %d reads", len(c.Reader.Ops))
+					c.Reader.Ops = c.Reader.Ops[:64]
+				}
 				st.Samples = append(st.Samples, c)
 			}
 		}
